@@ -48,7 +48,34 @@ def costs_equal(f, g, what):
 
 
 # ------------------------------------------------------------------ 1. forms of an uncertainty source
+BASE = {}
+
+
+def setvariant(k):
+    """variant 0: the data above; variant k > 0 (thorough tier): seeded other magnitudes of values, relative sizes, absolute sizes and correlations"""
+    global REL, ABS, CORM, YS, XS
+    if not BASE:
+        BASE.update(REL=REL.copy(), ABS=ABS.copy(), CORM=CORM.copy(), YS={k_: v_.copy() for k_, v_ in YS.items()}, XS={k_: v_.copy() for k_, v_ in XS.items()})
+    REL, ABS, CORM = BASE["REL"].copy(), BASE["ABS"].copy(), BASE["CORM"].copy()
+    YS, XS = {k_: v_.copy() for k_, v_ in BASE["YS"].items()}, {k_: v_.copy() for k_, v_ in BASE["XS"].items()}
+    if k:
+        rng = np.random.RandomState(140 + k)
+        REL = REL * rng.uniform(0.3, 3.0, 5)
+        ABS = ABS * rng.uniform(0.2, 5.0, 5)
+        YS = {k_: v_ * rng.uniform(0.5, 20.0) for k_, v_ in YS.items()}
+        M = rng.uniform(-1, 1, (5, 5))
+        C = M @ M.T + 2.5 * np.eye(5)
+        d = np.sqrt(np.diag(C))
+        CORM = C / np.outer(d, d)
+
+
 def gen_source(tier, seed):
+    for variant in (range(5) if tier == "thorough" else (0,)):
+        for inp in gen_source_one(tier, seed):
+            yield dict(inp, variant=variant)
+
+
+def gen_source_one(tier, seed):
     for level in ("object", "indexed-container", "xy-container-x", "xy-container-y", "indexed-fit", "xy-fit-x", "xy-fit-y", "hist-fit"):
         for sign in ("pos", "neg", "mixed"):
             for pair in ("rel-vs-abs", "rel-vs-abs-correlated", "cor+err-vs-cov", "rel-cor+err-vs-rel-cov", "rho-vs-matrix", "scalar-vs-vector", "rel-scalar-vs-vector", "rel-cov-vs-abs-cov", "rel-rho-vs-rel-matrix"):
@@ -100,6 +127,7 @@ def apply(target, form, axis=None):
 
 @R.oracle("source_forms_agree", gen_source, obligation="SimpleGaussianError / MatrixGaussianError / add_error")
 def source(inp):
+    setvariant(inp.get("variant", 0))
     level, sign, pair = inp["level"], inp["sign"], inp["pair"]
     axis = level[-1] if level.startswith("xy") else None
     ref = XS[sign] if axis == "x" else YS[sign]
